@@ -597,8 +597,17 @@ impl ArchiveReader for HeaderReader {
     }
 }
 fn try_init_post_decode(assume_no_overflow: bool) {
-    let cdo: u64 = kani::any();
-    let rel: [u64; 2] = kani::any();
+    try_init_post_decode_at(assume_no_overflow, false);
+}
+fn try_init_post_decode_at(assume_no_overflow: bool, concrete_desc: bool) {
+    let mut cdo: u64 = kani::any();
+    let mut rel: [u64; 2] = kani::any();
+    if concrete_desc {
+        // stored in descending order, concretely: a reader that reorders the descriptors runs a sort, which CBMC
+        // only gets through on concrete keys (the symbolic instance then ends without a verdict)
+        cdo = 1000;
+        rel = [500, 20];
+    }
     let asz: [u32; 2] = kani::any();
     let ssz: [u32; 2] = kani::any();
     let order: [u32; 2] = kani::any();
@@ -688,7 +697,7 @@ fn try_init_post_decode(assume_no_overflow: bool) {
             assert!(ar.source_order[0] == order[0] as usize && ar.source_order[1] == order[1] as usize);
             assert!(ar.chunk_hash_length() == hl as usize);
             assert!(ar.total_source_size() == total);
-            kani::cover!(rel[1] < rel[0]); // stored in descending order
+            kani::cover!(rel[1] < rel[0]); // stored in descending order (always, in the concrete twin)
             kani::cover!(order[0] == 1 && order[1] == 1);
             std::mem::forget(ar);
         }
@@ -706,13 +715,18 @@ fn try_init_post_decode(assume_no_overflow: bool) {
     }
 }
 #[kani::proof]
-#[kani::unwind(66)]
+#[kani::unwind(8)]
 fn c17_try_init_post_decode() {
     try_init_post_decode(true);
 }
+#[kani::proof]
+#[kani::unwind(8)]
+fn c17_try_init_post_decode_desc() {
+    try_init_post_decode_at(true, true);
+}
 /// C15: the same with unconstrained offsets: `chunk_data_offset + archive_offset` must not panic
 #[kani::proof]
-#[kani::unwind(66)]
+#[kani::unwind(8)]
 fn c15_try_init_offsets_any() {
     try_init_post_decode(false);
 }
